@@ -500,6 +500,12 @@ func (s *c15Sys) step(op map[string]interface{}, now int64) map[string]interface
 			return hookErr(errR(err))
 		}
 		return okR(true)
+	case "deleteLoc":
+		// Location.Delete -> State.Delete: as Clear, and the location's storage goes too
+		if err := loc.Delete(ctx); err != nil {
+			return hookErr(errR(err))
+		}
+		return okR(true)
 	case "getRule":
 		got, err := loc.GetRule(ctx, id)
 		if err != nil {
